@@ -185,16 +185,32 @@ func (e *Engine) callFunction(st *State, fr *Frame, fn *ssa.Function, args []Val
 	if fn.Blocks == nil {
 		e.fail("call to %s: no body, no contract, no intrinsic (from %s)", full, fr.fn)
 	}
-	if !e.isRepoFunc(fn) && !e.concrete {
-		if !allowInlineExternal[full] {
+	external := !e.isRepoFunc(fn)
+	if external && !e.concrete {
+		ok := false
+		for _, p := range inlineExternalPkgs {
+			if fn.Pkg != nil && fn.Pkg.Pkg.Path() == p {
+				ok = true
+			}
+		}
+		if !ok {
 			e.fail("call to external function %s without contract (from %s)", full, fr.fn)
 		}
+		if e.inlinedExt == nil {
+			e.inlinedExt = map[string]bool{}
+		}
+		e.inlinedExt[full] = true
 	}
-	if !e.concrete {
+	if !e.concrete && !external {
 		_, rel := e.funcKey(fn)
 		e.inlined[rel] = true
 	}
 	var outs []callOutcome
+	if external && !e.concrete && !e.eagerPrune {
+		// dependency code has no loop invariants: bounded-by-feasibility exploration with solver pruning
+		e.eagerPrune = true
+		defer func() { e.eagerPrune = false }()
+	}
 	for _, ex := range e.execFunction(st, fn, args, fr.depth+1, fr.ctx) {
 		switch ex.kind {
 		case "return":
@@ -206,7 +222,8 @@ func (e *Engine) callFunction(st *State, fr *Frame, fn *ssa.Function, args []Val
 	return outs
 }
 
-var allowInlineExternal = map[string]bool{}
+// dependency packages whose real code is symbolically executed (inlined) instead of being modelled
+var inlineExternalPkgs = []string{"golang.org/x/crypto/cryptobyte", "encoding/asn1"}
 
 // ---------------------------------------------------------------------------- contracts at call sites
 
@@ -565,7 +582,9 @@ func (e *Engine) symbolicResult(st *State, t types.Type, name string, fresh bool
 			r.dynLen = n
 			lo, hi := intRange(u.Elem())
 			st.mem.cells[pathKey(r.id, nil)] = &Term{Op: "var", Sort: SArr, Name: name + ".arr", Lo: lo, Hi: hi}
-			return &SliceVal{reg: r, off: mkInt64(0), length: n, capacity: n, elem: u.Elem(), backingN: -1}
+			cp := mkIntVarR(name+".cap", big0, big.NewInt(1<<40))
+			st.assume(mkLe(n, cp))
+			return &SliceVal{reg: r, off: mkInt64(0), length: n, capacity: cp, elem: u.Elem(), backingN: -1}
 		}
 		return &SliceVal{elem: u.Elem(), off: mkInt64(0), length: mkInt64(0), capacity: mkInt64(0)}
 	case *types.Interface:
@@ -633,6 +652,18 @@ func (e *Engine) assumeEnsures(st *State, env *SpecEnv, x ast.Expr, results []Va
 				}
 			}
 			l, r := env.eval(n.X), env.eval(n.Y)
+			if lr, ok := l.(*RefVal); ok {
+				switch underlying(lr.typ).(type) {
+				case *types.Slice, *types.Pointer:
+					// cell := value (slice header / pointer cells are assigned, not constrained)
+					rv := r
+					if rr, ok := rv.(*RefVal); ok {
+						rv = env.loadRef(rr)
+					}
+					e.storePath(st, lr.reg, lr.path, lr.typ, rv)
+					return
+				}
+			}
 			lt, lok := l.(*Term)
 			if rv, ok := l.(*RefVal); ok && isScalarType(rv.typ) {
 				lt, lok = env.loadRef(rv).(*Term)
@@ -682,6 +713,20 @@ func (e *Engine) assumeEnsures(st *State, env *SpecEnv, x ast.Expr, results []Va
 				}
 				if knownFalse(st, g) {
 					return
+				}
+			case "iff":
+				l := env.boolTerm(n.Args[0])
+				if l.Op == "var" && definable(l) {
+					r := substitute(env.boolTerm(n.Args[1]), st.subst)
+					if knownTrue(st, r) {
+						r = tTrue
+					} else if knownFalse(st, r) {
+						r = tFalse
+					}
+					if !occurs(l, r) {
+						st.addSubst(l, r)
+						return
+					}
 				}
 			case "errIs":
 				if rid, ok := n.Args[0].(*ast.Ident); ok {
